@@ -18,8 +18,10 @@ static const char *STRS[] = {"x", "", "y", "h\xc3\xa9llo", "a\"b\\c", nullptr, "
 static const int BOOLS[] = {0, 1, 7, -1};
 static const char *JSONS[] = {"{\"k\":1}", "[1,2,{\"z\":null}]", "{}", "[]", "{\"a\":9,\"c\":true,\"alg\":\"x\"}", "{\"b\":{\"n\":[1]},\"d\":\"s\"}", "5", "\"str\"", "null", "{\"k\":", "", "{\"a\":1,\"a\":2}", "{\"a\":1} trailing", nullptr, "true", "{\"\":1}",
                               // members of every JSON type under the names the typed getters ask for (reals and null can only arrive this way)
-                              "{\"a\":1.5,\"b\":null,\"exp\":2.5e3}", "{\"a\":[1],\"b\":\"s\",\"exp\":true}", "{\"a\":1.0,\"b\":false,\"alg\":7}", "{\"a\":{\"k\":{\"old\":1}},\"b\":-0.0}", "{\"a\":{\"k\":{\"new\":2}},\"exp\":1e400}"};
-static const int NINTS = 7, NSTRS = 7, NBOOLS = 4, NJSONS = 21;
+                              "{\"a\":1.5,\"b\":null,\"exp\":2.5e3}", "{\"a\":[1],\"b\":\"s\",\"exp\":true}", "{\"a\":1.0,\"b\":false,\"alg\":7}", "{\"a\":{\"k\":{\"old\":1}},\"b\":-0.0}", "{\"a\":{\"k\":{\"new\":2}},\"exp\":1e400}",
+                              // reals that need 16-17 significant digits, the largest and the smallest double, an integer beyond 2^53
+                              "{\"a\":0.30000000000000004,\"b\":3.141592653589793}", "{\"a\":[1.7976931348623157e308,5e-324],\"b\":{\"t\":1736432434.1234567,\"i\":9007199254740993}}"};
+static const int NINTS = 7, NSTRS = 7, NBOOLS = 4, NJSONS = 23;
 
 static std::string op_str(const Op &o) {
   const char *n = NAMES[o.name % NNAMES];
